@@ -66,8 +66,9 @@ class Roles:
                 if len(ps) == 1:
                     self.subtree_slice.add(name)
                     changed = True
-                elif len(ps) == 0 and any(isinstance(n, ast.For) and self_attr(n.iter) == self.state_attr
-                                          for n in ast.walk(fn)):
+                elif len(ps) == 0 and any(isinstance(n, ast.For) and (self_attr(n.iter) == self.state_attr or (
+                        isinstance(n.iter, ast.Call) and norm(n.iter.func) == "__subtree_nodes__" and n.iter.args
+                        and self_attr(n.iter.args[0]) == self.state_attr)) for n in ast.walk(fn)):
                     self.slice_all.add(name)
                     changed = True
         # register / commit: by the dictionary of pending non-leaf changes; judged on the canonical form of each method (its
@@ -260,15 +261,22 @@ class HandlerProtocol:
                 and self_attr(n.targets[0]) == self.roles.state_attr and isinstance(n.value, ast.Name)}
 
     def _slices_whole_state(self, loop: ast.For, ctx: Ctx) -> bool:
-        """`for c in <state>: self.<slice the subtree of>(c)` written out instead of calling the slice-all routine"""
+        """`for c in <state>: self.<slice the subtree of>(c)` (or a traversal of all nodes of the state slicing each unit) written
+        out instead of calling the slice-all routine"""
         it = loop.iter
-        over_state = self_attr(it) == self.roles.state_attr or (isinstance(it, ast.Name) and it.id in self._state_aliases(ctx.fn.fn))
+        all_nodes = isinstance(it, ast.Call) and norm(it.func) == "__subtree_nodes__" and len(it.args) == 1
+        root = it.args[0] if all_nodes else it
+        over_state = self_attr(root) == self.roles.state_attr or (isinstance(root, ast.Name) and root.id in self._state_aliases(ctx.fn.fn))
         body = [s for s in loop.body if not isinstance(s, (ast.Pass, ast.Assert))]
         if not over_state or len(body) != 1 or loop.orelse or not isinstance(loop.target, ast.Name):
             return False
         c = body[0].value if isinstance(body[0], ast.Expr) else None
-        return isinstance(c, ast.Call) and isinstance(c.func, ast.Attribute) and isinstance(c.func.value, ast.Name) and c.func.value.id == "self" \
-            and c.func.attr in self.roles.subtree_slice and len(c.args) == 1 and norm(c.args[0]) == loop.target.id
+        if not (isinstance(c, ast.Call) and isinstance(c.func, ast.Attribute) and isinstance(c.func.value, ast.Name) and c.func.value.id == "self"
+                and len(c.args) == 1):
+            return False
+        if all_nodes:
+            return c.func.attr in self.roles.unit_slice and norm(c.args[0]) == f"{loop.target.id}.value"
+        return c.func.attr in self.roles.subtree_slice and norm(c.args[0]) == loop.target.id
 
     def inline(self, call: ast.Call, ctx: Ctx) -> Sequence[FnRef]:
         f = call.func
